@@ -505,3 +505,64 @@ Definition c13_clients (toks : list (list N)) : list (list N) :=
     end
   | _ => REJECT_TOK
   end.
+
+(* ---------------- C02 / C14 ---------------- *)
+From TT Require Import Model.Pipe.
+
+Fixpoint gen_bytes (n : nat) (c : N) : list N :=
+  match n with O => [] | S k => c :: gen_bytes k ((c + 1) mod 256) end.
+
+Fixpoint dec_reads (fuel : nat) (t : list N) (c : N) : list read_ans :=
+  match fuel with
+  | O => []
+  | S f =>
+    match t with
+    | k :: a :: l :: rest =>
+      (if k =? 1 then RChunk a (gen_bytes (N.to_nat l) c)
+       else if k =? 2 then REof a else if k =? 3 then RErr a else RNever)
+      :: dec_reads f rest (if k =? 1 then (c + l) mod 256 else c)
+    | _ => []
+    end
+  end.
+
+Fixpoint dec_timed (fuel : nat) (t : list N) : list timed_ans :=
+  match fuel with
+  | O => []
+  | S f =>
+    match t with
+    | k :: a :: rest => (if k =? 1 then AOk a else if k =? 3 then AErr a else ANever) :: dec_timed f rest
+    | _ => []
+    end
+  end.
+
+Definition dec_env (r w wa e fl : list N) (c0 : N) : penv :=
+  {| reads := dec_reads (length r) r c0;
+     writes := map (fun k => if k =? 999999 then WErr else WAccept k) w;
+     waits := dec_timed (length wa) wa;
+     eof_err := match e with x :: _ => x =? 1 | [] => false end;
+     flushes := dec_timed (length fl) fl |}.
+
+Fixpoint is_prefix_of (a b : list N) : bool :=
+  match a, b with
+  | [], _ => true
+  | x :: a', y :: b' => (x =? y) && is_prefix_of a' b'
+  | _ :: _, [] => false
+  end.
+
+Definition render_pipe (p : pstate) : list N :=
+  [lenN (delivered p); consumed p; metric p; eof_calls p; flush_done p;
+   if is_prefix_of (delivered p) (read_log p) then 1 else 0; lenN (read_log p)].
+
+Definition c02_run_with (la_flag : bool) (toks : list (list N)) : list (list N) :=
+  match toks with
+  | [T] :: r1 :: w1 :: wa1 :: e1 :: f1 :: r2 :: w2 :: wa2 :: e2 :: f2 :: _ =>
+    let '(res, s) := duplex la_flag T (dec_env r1 w1 wa1 e1 f1 0) (dec_env r2 w2 wa2 e2 f2 100) in
+    [match res with
+     | DOk => [0; now s] | DTimedOut => [1; now s] | DError => [2; now s]
+     | DHang => [3; 0] | DFuel => [4; 0] end;
+     render_pipe (pl s); render_pipe (pr s)]
+  | _ => REJECT_TOK
+  end.
+
+From TT Require Import Generated.PipeFacts.
+Definition c02_run (toks : list (list N)) : list (list N) := c02_run_with PIPE_LA_ON_TRANSFER_ONLY toks.
